@@ -209,7 +209,7 @@ def outer_contract():
 
 def primary_setup(relpath, clsname):
     from .limits import rule_setup
-    return rule_setup(relpath, clsname)
+    return rule_setup(relpath, clsname, minhist=0)      # a primary may run on the very first statement
 
 
 R = "norminette/rules/"
